@@ -110,8 +110,9 @@ func (g *GenOpts) analyzeSpec() (*loads.Document, *analysis.Spec, error) {
 
 	// spec preprocessing option
 	if g.PropertiesSpecOrder {
-		g.Spec = WithAutoXOrder(g.Spec)
-		specDoc, err = loads.Spec(g.Spec)
+		// the reordered copy lives in a temporary directory: load it, but keep g.Spec pointing at the user's document
+		// (templates print its path, e.g. in the go:generate line of the configure file)
+		specDoc, err = loads.Spec(WithAutoXOrder(g.Spec))
 		if err != nil {
 			return nil, nil, err
 		}
